@@ -287,8 +287,14 @@ def run_property(prop, tier, seed, level, explanation="", trusted_base=(), worke
     # fixed entries suppress nothing; findings not hit any more are reported as stale (informational)
     stale = [e for e in known["findings"] if e.get("property") == prop and not any(e is k for k, _ in known_hits)]
 
+    printed = set()
     for e, text in known_hits:
-        print(f"KNOWN-FINDING: property={prop} {e.get('text', text)}")
+        if id(e) not in printed:
+            printed.add(id(e))
+            print(f"KNOWN-FINDING: property={prop} {e.get('text', text)}")
+    slow = sorted(((r["seconds"], registry.OBLIGATIONS[r["idx"]].name, r["preset"]) for r in results), reverse=True)[:3]
+    if slow and slow[0][0] > 20:
+        print("SLOW-JOBS " + "; ".join(f"{n} {p} {t:.0f}s" for t, n, p in slow))
     for path, text, confirmed in violations:
         print(f"DETAIL {text}")
         print(f"VIOLATION property={prop} replay={path}" + ("" if confirmed else " no-failing-input-found"))
